@@ -588,7 +588,11 @@ func c12Response(ctx *core.Ctx, r *RT, pr *bounds.Prover) {
 	}
 	if pr2 := r.Fn("C12.R4", "(FStandardClient).processReply"); pr2 != nil {
 		ok := false
-		for _, b := range pr2.Blocks {
+		var blocks []*ssa.BasicBlock
+		for _, g := range localCone(pr2, 2) { // the exception branch may be an extracted helper
+			blocks = append(blocks, g.Blocks...)
+		}
+		for _, b := range blocks {
 			iff, isIf := b.Instrs[len(b.Instrs)-1].(*ssa.If)
 			if !isIf {
 				continue
@@ -604,7 +608,7 @@ func c12Response(ctx *core.Ctx, r *RT, pr *bounds.Prover) {
 			if c, isC := CallValue(bo.X); !isC || c.ShortName() != "TypeId" {
 				continue
 			}
-			for ret, vs := range ReturnedValues(pr2) {
+			for ret, vs := range ReturnedValues(b.Parent()) {
 				if ret.Block() == b.Succs[0] {
 					for _, v := range vs {
 						if kk, isEx := ExceptionKind(v, "thrift.NewTTransportException"); isEx && kk == constInt(r, "TRANSPORT_EXCEPTION_RESPONSE_TOO_LARGE") {
